@@ -110,6 +110,79 @@ void prop(DP &dp, const ref::Bytes &sched, Ctx &ctx) {
 	StateModel M_;
 	M_.init(n.c);
 
+	// ---- "owners" case: every thread owns one function of the same train and switches it on / off several times;
+	// whatever the interleaving, each function must end with its owner's last value (in the tracked state and in the last
+	// drive message on the wire) - a lost update means two calls were not atomic with respect to each other
+	{
+		const cfg::Train *tr = nullptr;
+		std::string out;
+		for (auto &t : n.c.trains) if (t.periphs.size() >= 2 && (!tr || t.periphs.size() > tr->periphs.size())) tr = &t;
+		for (auto &b : n.c.boards) if (b.is_track_output() && n.connected(b.id)) out = b.id;
+		if (tr && !out.empty() && dp.chance(150)) {
+			size_t k = tr->periphs.size();
+			int done2 = 0;
+			std::vector<std::unique_ptr<Plan>> pls;
+			std::vector<int> last(k, -1);
+			ctx.desc << " owners case: train " << tr->id << " via " << out << "\n";
+			for (size_t t = 0; t < k; t++) {
+				std::unique_ptr<Plan> pl(new Plan);
+				pl->done = &done2;
+				pl->pauses = dp.bytes((size_t) dp.range(1, 6));
+				int reps = dp.range(1, 5);
+				for (int i = 0; i < reps; i++) {
+					uint8_t v = (uint8_t) dp.pick(2);
+					std::string tid = tr->id, pid = tr->periphs[t].id, ob = out;
+					api::Call c;
+					c.text = "bidib_set_train_peripheral(" + tid + ", " + pid + ", " + std::to_string(v) + ", " + ob + ")";
+					c.run = [tid, pid, v, ob] { bidib_set_train_peripheral(tid.c_str(), pid.c_str(), v, ob.c_str()); };
+					pl->calls.push_back(c);
+					last[t] = v;
+				}
+				ctx.desc << "  thread " << t << " owns " << tr->periphs[t].id << " (bit " << (int) tr->periphs[t].bit << "), last value " << last[t] << "\n";
+				pls.push_back(std::move(pl));
+			}
+			n.bus.silent = false;        // drive acknowledgements arrive, so that budget-deferred drive messages are released
+			contracts::enable(true);
+			std::vector<pthread_t> th2(k);
+			for (size_t t = 0; t < k; t++) vf_pthread_create(&th2[t], nullptr, thread_main, pls[t].get());
+			int guard2 = 0;
+			while (__atomic_load_n(&done2, __ATOMIC_RELAXED) < (int) k && guard2++ < 400000) vf_usleep(free_run ? 3000 : 1000);
+			if (__atomic_load_n(&done2, __ATOMIC_RELAXED) < (int) k) ctx.fail("HANG: owner threads did not finish");
+			for (size_t t = 0; t < k; t++) vf_pthread_join(th2[t], nullptr);
+			contracts::enable(false);
+			for (int r = 0; r < 12; r++) { bidib_flush(); n.s.settle(2); }
+			n.bus.silent = true;
+			for (auto &pl : pls) if (!pl->violation.empty()) ctx.fail(pl->violation);
+			if (contracts::violations() > 0) ctx.fail(std::string("LOCK-CONTRACT: ") + contracts::violation(0));
+			for (size_t t = 0; t < k; t++) {
+				if (tr->periphs[t].bit >= 5 && tr->periphs[t].bit <= 7) continue;       // reserved bits: the call is rejected
+				t_bidib_train_peripheral_state_query q = bidib_get_train_peripheral_state(tr->id.c_str(), tr->periphs[t].id.c_str());
+				if (!q.available || q.state != last[t])
+					ctx.fail("LOST-UPDATE: function " + tr->periphs[t].id + " of train " + tr->id + " was last set to " + std::to_string(last[t]) + " by its only writer, but the tracked state says " +
+					         std::to_string(q.state) + " after " + std::to_string(k) + " threads switched different functions of the train concurrently");
+			}
+			// the last drive message of every function group on the wire carries the final values of its functions
+			int nodei = n.bus.node_of_board(out);
+			std::map<int, ref::Msg> last_of_group;
+			for (auto &r : n.bus.tx)
+				if (r.m.type == M::CS_DRIVE && r.m.data.size() == 9 && r.m.addr == n.bus.nodes[(size_t) nodei].addr && r.m.data[0] == tr->addrl && r.m.data[1] == tr->addrh)
+					for (int g = 1; g <= 5; g++) if (r.m.data[3] & (1 << g)) last_of_group[g] = r.m;
+			static const int LO[] = {0, 0, 8, 12, 16, 24}, HI[] = {0, 4, 11, 15, 23, 31};
+			for (size_t t = 0; t < k; t++) {
+				int bit = tr->periphs[t].bit;
+				if (bit >= 5 && bit <= 7) continue;
+				for (int g = 1; g <= 5; g++)
+					if (bit >= LO[g] && bit <= HI[g] && last_of_group.count(g)) {
+						int wire_bit = (last_of_group[g].data[5 + (size_t) bit / 8] >> (bit % 8)) & 1;
+						if (wire_bit != last[t])
+							ctx.fail("LOST-UPDATE: the last drive message for function group " + std::to_string(g) + " of train " + tr->id + " (" + ref::show(last_of_group[g]) + ") carries " + std::to_string(wire_bit) +
+							         " for function " + tr->periphs[t].id + ", its only writer last set " + std::to_string(last[t]));
+					}
+			}
+			ctx.tag("owners-case");
+			M_.init(n.c);          // the reference continues from the state the commands produced
+		}
+	}
 	unsigned nt = (unsigned) dp.range(2, free_run ? 12 : 4);
 	bool watch_case = dp.chance(110);          // watch: state changes only through the main thread's messages
 	int done = 0;
